@@ -31,6 +31,25 @@ def _open_findings(pid):
     return [f for f in common.load_known_findings() if f['property'] == pid and f['status'] == 'open']
 
 
+def _replay_corpus(pid, mod, ctx):
+    """regression tier: every saved case under corpus/<id>/ (shrunk failures of earlier defects and of seeded changes)
+    is replayed first, without any generator"""
+    d = os.path.join(HERE, 'corpus', pid)
+    if not os.path.isdir(d):
+        return
+    n = 0
+    for name in sorted(os.listdir(d)):
+        if not name.endswith('.json'):
+            continue
+        with open(os.path.join(d, name), encoding='utf-8') as f:
+            case = json.load(f)['case']
+        un = ctx.evaluate(case, mod.replay)
+        n += 1
+        if un:
+            ctx.violation(case, un)
+    ctx.rec.notes['corpus_cases_replayed'] = n
+
+
 def _shard(args):
     pid, tier, seed, shard, nshards = args
     warnings.simplefilter('ignore')
@@ -38,6 +57,8 @@ def _shard(args):
     ctx = common.Ctx(pid, tier, seed, shard, nshards, getattr(mod, 'FINDINGS', {}),
                      [f['id'] for f in _open_findings(pid)])
     try:
+        if shard == 0:
+            _replay_corpus(pid, mod, ctx)
         mod.run(ctx)
     except common.HarnessError as he:
         ctx.rec.harness_errors.append(str(he))
